@@ -218,11 +218,11 @@ theorem kind_enum_iff {v : Value} : v.kind = .enumeration ↔ ∃ vs, v = .enum 
   cases v <;> simp [Value.kind]
 
 /-- the enumeration values an attribute refers to are emitted with the data type of its definition -/
-theorem enumRef_mem_defs (x : Str → Option Str) (m : Module) (hT : Typed m)
+theorem enumRef_emitted (m : Module) (hT : Typed m)
     (hD : ∀ t₁ ∈ allDataTypes m, ∀ t₂ ∈ allDataTypes m, up t₁.uuid = up t₂.uuid → t₁ = t₂)
     (hE : hasEnumWithoutDef m = false)
     {r : Req} (hr : r ∈ m.dfs) (hc : r ∈ collected m) {a : Attr} (ha : a ∈ r.attrs)
-    {u : Str} (hu : u ∈ a.value.enumRefs) : Ident.obj u ∈ (doc x m).defs := by
+    {u : Str} (hu : u ∈ a.value.enumRefs) : u ∈ emittedEnumValues m := by
   -- the attribute is an enumeration attribute with a definition
   obtain ⟨vs, hv⟩ : ∃ vs, a.value = .enum vs := by
     cases h : a.value <;> simp [h, Value.enumRefs] at hu ⊢
@@ -270,14 +270,28 @@ theorem enumRef_mem_defs (x : Str → Option Str) (m : Module) (hT : Typed m)
       subst this
       simp only [List.mem_map] at hvdt
       obtain ⟨v0, hv0, rfl⟩ := hvdt
-      refine enumValue_mem_defs x m _ he (enumValueEl v0) ?_
-      simp [datatypeEl, adKey, hd', hdE', dtOf, hdt']
+      simp only [emittedEnumValues, List.mem_flatMap, List.mem_map]
+      refine ⟨_, he, enumValueEl v0, ?_, rfl⟩
+      simp [datatypeEl, adKey, hd', hdE', dtOf, hdt', hv', Value.kind]
       exact ⟨v0, hv0, rfl⟩
 
-
-theorem refs_closed' (x : Str → Option Str) (m : Module) (hn : (m.dfs.map (·.uuid)).Nodup) (hT : Typed m)
+/-- the metamodel's typing implies that every enumeration choice is covered by an emitted data type -/
+theorem typed_covered (m : Module) (hn : (m.dfs.map (·.uuid)).Nodup) (hT : Typed m)
     (hD : ∀ t₁ ∈ allDataTypes m, ∀ t₂ ∈ allDataTypes m, up t₁.uuid = up t₂.uuid → t₁ = t₂)
-    (hE : hasEnumWithoutDef m = false) :
+    (hE : hasEnumWithoutDef m = false) : EnumRefsCovered m := by
+  intro r hr a ha u hu
+  exact enumRef_emitted m hT hD hE hr (collected_eq_dfs m hn ▸ hr) ha hu
+
+theorem covered_mem_defs (x : Str → Option Str) (m : Module) {u : Str} (hu : u ∈ emittedEnumValues m) :
+    Ident.obj u ∈ (doc x m).defs := by
+  simp only [emittedEnumValues, List.mem_flatMap, List.mem_map] at hu
+  obtain ⟨e, he, v, hv, rfl⟩ := hu
+  exact enumValue_mem_defs x m e he v hv
+
+
+
+theorem refs_closed_cov (x : Str → Option Str) (m : Module) (hn : (m.dfs.map (·.uuid)).Nodup)
+    (hCov : EnumRefsCovered m) :
     ∀ i ∈ (doc x m).refs, i ∈ (doc x m).defs := by
   intro i hi
   have hcoll := collected_eq_dfs m hn
@@ -317,7 +331,7 @@ theorem refs_closed' (x : Str → Option Str) (m : Module) (hn : (m.dfs.map (·.
         refine Or.inr (Or.inr ⟨attrDefEl (adKey a), ⟨adKey a, ?_, rfl⟩, ?_⟩)
         · rw [hkey]; exact adKey_mem_adefsOf hc ha
         · simp [AttrDefEl.ident, attrDefEl, adKey, hrt]
-      · exact enumRef_mem_defs x m hT hD hE hr hc ha hu
+      · exact covered_mem_defs x m (hCov r hr a ha u hu)
     · refine specType_ids_mem_defs x m t ht _ ?_
       simp [SpecTypeEl.ids, specObjectType, hrt]
   · exact specificationType_ids_mem_defs x m _ (by simp [SpecificationTypeEl.ids, doc, specification, specificationType])
@@ -331,6 +345,12 @@ theorem refs_closed' (x : Str → Option Str) (m : Module) (hn : (m.dfs.map (·.
     obtain ⟨r, hr, rfl⟩ := hh
     exact req_mem_defs x m r hr
 
+
+theorem refs_closed' (x : Str → Option Str) (m : Module) (hn : (m.dfs.map (·.uuid)).Nodup) (hT : Typed m)
+    (hD : ∀ t₁ ∈ allDataTypes m, ∀ t₂ ∈ allDataTypes m, up t₁.uuid = up t₂.uuid → t₁ = t₂)
+    (hE : hasEnumWithoutDef m = false) :
+    ∀ i ∈ (doc x m).refs, i ∈ (doc x m).defs :=
+  refs_closed_cov x m hn (typed_covered m hn hT hD hE)
 
 /-! ### all identifiers are distinct -/
 
